@@ -1,0 +1,20 @@
+// SPDX-FileCopyrightText: 2022 Kalle Fagerberg
+//
+// SPDX-License-Identifier: MIT
+
+//go:build !verif
+
+package sync2
+
+import "sync"
+
+// The verif* functions are instrumentation points for external runtime
+// verification. Without the "verif" build tag they are empty and inlined away.
+
+func verifYield(site int) {}
+
+func verifLock(site int, mu *sync.Mutex) {}
+
+func verifRWLock(site int, mu *sync.RWMutex) {}
+
+func verifRLock(site int, mu *sync.RWMutex) {}
